@@ -110,6 +110,12 @@ pub enum StartBook {
     BidsOnly,
     AsksOnly,
     TwoSided,
+    /// no bids, best ask exactly one tick above zero (mid-price below one tick)
+    AskAtOneTick,
+    /// bid at one tick, ask at two ticks
+    LowTwoSided,
+    /// no asks, best bid 1000 ticks below the largest grid price (sells overshoot the price limit)
+    BidNearTop,
 }
 
 impl World {
@@ -137,6 +143,13 @@ impl World {
                 place(true, b);
                 place(false, a);
             }
+            StartBook::AskAtOneTick => place(false, tick),
+            StartBook::LowTwoSided => {
+                place(true, tick);
+                place(false, 2 * tick);
+            }
+            // (1000 ticks of room: with the bid on the last grid price no valid sell price at or above the mid-price exists)
+            StartBook::BidNearTop => place(true, ((u32::MAX - 1) / tick - 1000) * tick),
         }
         let mut r = ScriptRng::new(vec![], 5);
         w.step(&mut r);
@@ -317,6 +330,44 @@ pub fn judge_round(c: &AgentCfg, before: &[OrderRec], mid: f64, after_update: &[
     Ok(())
 }
 
+/// Documented activity rule of the momentum agents, with M recomputed by the harness from the
+/// mid-prices it read before each update: nothing at M = 0 (probability 0), one market order per
+/// trader when |demand*tanh(scale*M)|/n >= 1 (and one limit order when ratio times that is >= 1),
+/// buys for M > 0 and sells for M < 0.
+pub fn momentum_activity_clause(c: &AgentCfg, m: f64, new: &[OrderRec]) -> Result<(), (String, String)> {
+    let AgentCfg::Momentum { n, demand, scale, ratio, .. } = c else { return Ok(()) };
+    let prob = (demand * (scale * m).tanh()).abs() / *n as f64;
+    if m == 0.0 && !new.is_empty() {
+        return Err(("action-with-probability-zero".into(), format!("momentum M = 0 but the agents submitted {:?}", new)));
+    }
+    for o in new {
+        if o.bid != (m > 0.0) {
+            return Err(("momentum-wrong-side".into(), format!("M = {} but {:?} was submitted", m, o)));
+        }
+    }
+    for t in c.traders() {
+        let nm = new.iter().filter(|o| o.trader == t && is_market(o)).count();
+        let nl = new.iter().filter(|o| o.trader == t && !is_market(o)).count();
+        // stay clear of the threshold itself: the recurrence is evaluated in floating point on both sides
+        if prob >= 1.0 + 1e-9 && nm != 1 {
+            return Err((
+                "no-action-with-probability-one".into(),
+                format!("M = {}: |demand*tanh(scale*M)|/n = {} >= 1 but trader {} submitted {} market orders", m, prob, t, nm),
+            ));
+        }
+        if prob * ratio >= 1.0 + 1e-9 && nl != 1 {
+            return Err((
+                "no-action-with-probability-one".into(),
+                format!("M = {}: ratio*|demand*tanh(scale*M)|/n = {} >= 1 but trader {} submitted {} limit orders", m, prob * ratio, t, nl),
+            ));
+        }
+        if *ratio == 0.0 && nl != 0 {
+            return Err(("action-with-probability-zero".into(), format!("order ratio 0 but trader {} submitted a limit order", t)));
+        }
+    }
+    Ok(())
+}
+
 fn cancel_clause(p_cancel: f32, group_active_before: &[&OrderRec], before: &[OrderRec], after_step: &[OrderRec]) -> Result<(), (String, String)> {
     let _ = before;
     for o in group_active_before {
@@ -367,10 +418,12 @@ pub fn run_scripted(acc: &Acc, multi: bool, c: &AgentCfg, start: StartBook, scri
         }
     };
     let mut quote: Option<usize> = None;
+    let mut mids: Vec<f64> = Vec::new();
+    let mut mom = 0.0f64;
     for (r, script) in scripts.iter().enumerate() {
         acc.rounds.fetch_add(1, Ordering::Relaxed);
-        if matches!(c, AgentCfg::Momentum { .. }) && r >= 1 {
-            // the harness moves the mid-price: up before round 1, back down before round 2
+        if matches!(c, AgentCfg::Momentum { .. }) && (r == 1 || r == 2) {
+            // the harness moves the mid-price: up before round 1, back down before round 2, nothing before round 3
             let pre = util::subject(|| {
                 if r % 2 == 1 {
                     quote = Some(w.place_foreign(true, 50, Some(501 * c.tick())));
@@ -415,6 +468,18 @@ pub fn run_scripted(acc: &Acc, multi: bool, c: &AgentCfg, start: StartBook, scri
         if let Err((cl, d)) = judge_round(c, &before, mid, &after_update, &after_step) {
             acc.fail(format!("agents/{}/{}", kind(c), cl), format!("round {}: {}", r, d), replay());
             return;
+        }
+        if let AgentCfg::Momentum { decay, .. } = c {
+            if let Some(prev) = mids.last() {
+                mom = mom * (1.0 - decay) + decay * (mid - prev);
+            }
+            mids.push(mid);
+            if mid.is_finite() {
+                if let Err((cl, d)) = momentum_activity_clause(c, mom, &after_update[before.len()..]) {
+                    acc.fail(format!("agents/{}/{}", kind(c), cl), format!("round {} (mid-prices observed so far {:?}): {}", r, mids, d), replay());
+                    return;
+                }
+            }
         }
     }
 }
@@ -518,7 +583,7 @@ pub fn c16(tier: &str) -> i32 {
     let acc = Acc::new();
     let ticks: Vec<u32> = (1..=10).collect();
     let probs: Vec<f32> = vec![0.0, 0.3, 1.0, 1.5];
-    let starts = [StartBook::Empty, StartBook::BidsOnly, StartBook::AsksOnly, StartBook::TwoSided];
+    let starts = [StartBook::Empty, StartBook::BidsOnly, StartBook::AsksOnly, StartBook::TwoSided, StartBook::AskAtOneTick, StartBook::LowTwoSided, StartBook::BidNearTop];
     // configuration grid
     let mut cfgs: Vec<AgentCfg> = Vec::new();
     for &tick in &ticks {
@@ -535,6 +600,9 @@ pub fn c16(tier: &str) -> i32 {
                         cfgs.push(AgentCfg::Noise { start: 10, n: n as u16, tick, p_limit: 0.3, p_market: 0.0, p_cancel: 1.0, vol: 7, mu: 0.0, sigma });
                     }
                     cfgs.push(AgentCfg::Momentum { start: 20, n: n as u16, tick, p_cancel: p, vol: 5, decay: 1.0, demand: 100.0, scale: 0.5, ratio: 1.0, mu: 0.0, sigma });
+                    if p == 0.3 && (t || tick <= 3) {
+                        cfgs.push(AgentCfg::Momentum { start: 20, n: n as u16, tick, p_cancel: p, vol: 5, decay: 0.5, demand: 100.0, scale: 0.5, ratio: 0.5, mu: 0.0, sigma });
+                    }
                 }
             }
         }
@@ -548,7 +616,7 @@ pub fn c16(tier: &str) -> i32 {
     for multi in [false, true] {
         for (ci, _) in cfgs.iter().enumerate() {
             for &s in &starts {
-                if multi && !t && !matches!(s, StartBook::TwoSided | StartBook::Empty) {
+                if multi && !t && !matches!(s, StartBook::TwoSided | StartBook::Empty | StartBook::AskAtOneTick) {
                     continue;
                 }
                 jobs.push((multi, ci, s));
@@ -570,6 +638,8 @@ pub fn c16(tier: &str) -> i32 {
                 // the momentum agent needs a price change to act: the harness moves the foreign quotes between rounds
                 let devs = scripts_with_deviations(seed, n_draws, &values, if matches!(c, AgentCfg::Random { .. }) || t { max_dev } else { 1 });
                 scripts_per_job.store(devs.len() as u64, Ordering::Relaxed);
+                // momentum agents get a fourth, flat round (the carried momentum term alone decides there)
+                let rounds = if matches!(c, AgentCfg::Momentum { .. }) { rounds + 1 } else { rounds };
                 for round in 0..rounds {
                     for d in &devs {
                         let mut scripts: Vec<Vec<Ans>> = vec![vec![]; rounds];
@@ -598,7 +668,7 @@ pub fn c16(tier: &str) -> i32 {
         "bounds",
         json!({
             "ticks": "1..10", "probabilities": probs, "sigma": [1.0, 10.0], "traders": if t { "1..3" } else { "1,3" },
-            "start_books": ["Empty", "BidsOnly", "AsksOnly", "TwoSided"], "rounds": rounds,
+            "start_books": ["Empty", "BidsOnly", "AsksOnly", "TwoSided", "AskAtOneTick", "LowTwoSided", "BidNearTop"], "rounds": "3 (momentum: 4, the last one with an unchanged mid-price)",
             "scripted_draws_per_update": n_draws, "deviation_bound": max_dev, "extreme_values": values.iter().map(|v| format!("{:#x}", v)).collect::<Vec<_>>(),
             "scripts_per_round_and_configuration": scripts_per_job.load(Ordering::Relaxed),
             "seeded_runs": "bounded enumeration of seeds with Xoroshiro128** (labelled as such; not used to claim exhaustiveness)",
